@@ -208,6 +208,9 @@ async def explore(pid, tier, seed, m, v, known, budget_s, extra_cases=None):
         renv = sg.gen_env(adv=prof["adv"], fail=prof["fail"])
         mixed = sg.mixed_scenario(renv)
         b = await er.build_engine(sg.model(), renv)
+        # (resolvers that modify their own `args` are NOT used here: a whole-variable argument is delivered as the one
+        #  coerced variable object to every field using it, so such a resolver legitimately changes what a sibling sees;
+        #  the C15 check uses them, where both sides of the comparison share that aliasing)
         for q in mixed:
             account(await run_case(m, b, renv, q, None, None))
         for di in range(ndocs):
